@@ -58,7 +58,7 @@ def _gen_starts(rng, n, et):
     return [t0 if i in first else round(t0 + gap * (1 + rng.random()), 5) for i in range(n)]
 
 
-def run_election(sc):
+def validate_election(sc):
     n = sc.get("n", 0)
     if not 3 <= n <= 5 or sc.get("strategy") not in STRATS or len(sc.get("starts", [])) != n:
         raise InvalidScenario("election shape")
@@ -70,6 +70,11 @@ def run_election(sc):
     check_faults(sc.get("faults", []), n)
     if sc.get("klass") == "election-nofault" and sc.get("faults"):
         raise InvalidScenario("fault-free class")
+    return n
+
+
+def run_election(sc):
+    n = validate_election(sc)
     seed_globals(sc["seed"])
     ref = NetRef()
     # one strategy object shared by all nodes, or one per node (both are legal wirings of the public API)
@@ -168,12 +173,16 @@ def gen_lock(rng):
             "max_waiters": rng.choice([0, 0, 1, 3]), "ops": ops, "horizon": round(span + 2.5 * lease, 5)}
 
 
-def run_lock(sc):
+def validate_lock(sc):
     if not 0.001 <= sc.get("lease", 0) <= 1000 or sc.get("max_waiters", 0) < 0 or not 0 < sc.get("horizon", 0) <= 5000:
         raise InvalidScenario("lock parameters")
     for o in sc.get("ops", []):
         if o.get("kind") not in KINDS or o.get("t", -1) < 0 or not 0 <= o.get("client", -1) < 8 or not 0 <= o.get("lock", -1) < 4:
             raise InvalidScenario("lock op")
+
+
+def run_lock(sc):
+    validate_lock(sc)
     seed_globals(sc["seed"])
     lock = DistributedLock(name="lockmgr", lease_duration=sc["lease"], max_waiters=sc["max_waiters"])
     sim = Simulation(entities=[lock], end_time=Instant.from_seconds(sc["horizon"]))
